@@ -20,6 +20,19 @@ def RW.empty (size : Nat) : RW := { size, index := 0, bitfield := 0 }
 /-- `initialize_from_freshlyseen` -/
 def RW.freshlySeen (size seen : Nat) : RW := { size, index := seen, bitfield := 1 }
 
+/-- `int.bit_length` -/
+def bitLength (b : Nat) : Nat := if b = 0 then 0 else b.log2 + 1
+
+/-- `initialize_from_persisted` (oscore.py:1753-1765) of a window of `size` slots on the persisted
+`{"index": index, "bitfield": bitfield}`.  The state may have been written by a window of another
+size: a bitfield wider than `size` moves the window up (`excess = bit_length - size`; index and
+shift, as `strike_out` does) so that no recorded number ends up beyond the window, where `is_valid`
+does not look at the bitfield. -/
+def RW.fromPersisted (size index bitfield : Nat) : RW :=
+  let excess := bitLength bitfield - size
+  if excess > 0 then { size, index := index + excess, bitfield := bitfield >>> excess }
+  else { size, index, bitfield }
+
 /-- `is_valid`: `(self._bitfield >> (number - self._index)) & 1 == 0` -/
 def RW.isValid (w : RW) (n : Nat) : Bool :=
   if n < w.index then false
